@@ -121,7 +121,7 @@ PROPS = {
     "C15": {
         "engines": [{"name": "runtime"}],
         "text": "Lean 4 theorems over all naturals / all byte strings for Sov, Soz, EncodeVarint and Skip (C15_*) on a model of runtime.go that is tied to the source twice on every run: (1) tools/go2lean TRANSLATES Sov, Soz, EncodeVarint and Skip from runtime/runtime.go into Lean definitions (go/types; wrapping uint64/int arithmetic, slice reads and writes with index panics, loops as fuel-recursive helpers) and the source-level theorem files prove that the translated functions ARE the model: C15_src_Sov_eq_protowire_size (exhaustion over the 65 bit lengths), C15_src_Soz_eq, C15_src_EncodeVarint_writes_minimal_varint, C15_src_Skip_is_model / _no_panic / _progress / _len (the four loops of Skip by induction: never a panic, exactly the length of the first record protowire accepts, for every input below 2^62 bytes); (2) a differential run of the compiled model against runtime.* and protowire (boundaries, 32-bit sweep, group depth limits, records of 2^31 / 2^32 bytes in an untouched buffer).",
-        "note": "trusted: Lean kernel, the translator tools/go2lean, math/bits.Len64 spec, correspondence sampling; the loop theorems (EncodeVarint, Skip) follow the shape of the loops in the source: when a loop is restructured they are dropped from the run with a note (no alarm) and the function stays with the differential tie",
+        "note": "trusted: Lean kernel, the translator tools/go2lean, math/bits.Len64 spec, correspondence sampling; the loop theorems (EncodeVarint, Skip) and the Soz calculation follow the shape of the source: when that is restructured they are dropped from the run with a note (no alarm) and the function stays with the differential tie",
         "design": "DESIGN.md §3 C15",
     },
     "C16": {
